@@ -562,6 +562,11 @@ def _constraints(cfg, N):
         special = z3.Or(z3.Not(base), anydef) if (defect and small) else z3.Not(base)
         for j in range(N):
             cons.append(z3.Implies(special, V(f'x_{j}') == 1))
+    if cfg.get('x_free_jobs') is not None:
+        plain = z3.And(base, z3.Not(anydef)) if (defect and small) else base
+        for j in range(N):
+            if j not in cfg['x_free_jobs']:
+                cons.append(z3.Implies(plain, V(f'x_{j}') == 0))
     if cfg.get('fix_x_all'):
         for j in range(N):
             cons.append(V(f'x_{j}') == 1)
@@ -575,7 +580,8 @@ def explore_shard(cfg):
     import z3
     N = cfg['N']
     t0 = time.time()
-    ex = shapesym.Explorer(_constraints(cfg, N), deadline=(t0 + cfg['deadline_s']) if cfg.get('deadline_s') else None)
+    late = bool(cfg.get('deadline_at')) and t0 > cfg['deadline_at']
+    ex = shapesym.Explorer(_constraints(cfg, N), deadline=cfg.get('deadline_at'))
     res = {'fix': cfg.get('fix', {}), 'paths': 0, 'pipelines': 0, 'not_a_pipeline': 0, 'queries': 0, 'twins_sat': 0,
            'violating_paths': 0, 'classes': {}, 'rejected': 0, 'submitted': 0, 'rejections': {}, 'samples': [], 'unknown': 0, 'kinds_seen': {}, 'variants_seen': {}}
 
@@ -620,7 +626,7 @@ def explore_shard(cfg):
         if len(res['samples']) < 2 and not errs and obs['pairs']:
             res['samples'].append({'choices': dict(p.choices), 'shape': _jsonable(obs['shape'])})
 
-    paths = ex.run(body, on_path=on_path, keep_paths=False)
+    paths = [] if late else ex.run(body, on_path=on_path, keep_paths=False)
     res['complete'] = ex.complete
     res['exhaustive'] = ex.exhaustive(paths) if ex.complete else 'unknown'
     res['solver_calls'] = ex.solver_calls
